@@ -71,3 +71,72 @@ def tu(g, cases):
         o.append('    pr(%d, "view,ctobj", run(string_view_buffer(std::string_view(e, %d)), %s, %s)); pr(%d, "view,rtobj", runp(*q, string_view_buffer(std::string_view(e, %d)), %s, %s)); }' % (i, n, ws, nl, i, n, ws, nl))
     o.append('  return 0; }')
     return '\n'.join(o) + '\n'
+
+
+# ---------------------------------------------------------------- token-list parsers over multi-character terms
+def hash_lexeme(bs):
+    h = (len(bs) * 131 + 7) & M32
+    for b in bs:
+        h = (h * 33 + b) & M32
+    return h
+
+
+def hash_lex_tree(nodes, root, inp):
+    """value computed by the functors of lex_tu: leaves contribute length and content of their LEXEME"""
+    n = nodes[root]
+    if n['k'] == 0:
+        return hash_lexeme(inp[n['off']:n['off'] + n['len']])
+    h = (n['sym'] + 1) & M32
+    for c in n['ch']:
+        h = (h * 31 + hash_lex_tree(nodes, c, inp)) & M32
+    return h
+
+
+def lex_tu(terms, shape_rules, cases):
+    """terms: lx term descriptors; shape_rules: right sides as term-index lists (gen_tu.lex_rules); cases as for tu()"""
+    o = ['#include <ctpg/ctpg.hpp>', '#include <cstdio>', '#include <string>', '#include <string_view>', 'using namespace ctpg;', 'using namespace ctpg::buffers;',
+         'constexpr unsigned hl(std::string_view v) { unsigned h = unsigned(v.size()) * 131u + 7u; for (char c : v) h = h * 33u + unsigned((unsigned char)c); return h; }',
+         '// term values: string_view (string / regex terms) or char (char terms) - the LEXEME decides the value',
+         'struct LF { unsigned r; template<typename... A> constexpr unsigned operator()(A... a) const { unsigned h = r + 1u; ((h = h * 31u + conv(a)), ...); return h; }',
+         '  static constexpr unsigned conv(unsigned v) { return v; }',
+         '  static constexpr unsigned conv(const term_value<std::string_view>& v) { return hl(v.get_value()); }',
+         '  static constexpr unsigned conv(const term_value<char>& v) { char c = v.get_value(); return hl(std::string_view(&c, 1)); } };',
+         'constexpr nterm<unsigned> n0("N0");']
+    for i, t in enumerate(terms):
+        if t[0] == 'C':
+            b = t[1]
+            o.append('constexpr char_term t%d(char(%d));' % (i, b if b < 128 else b - 256))
+        elif t[0] == 'S':
+            o.append('constexpr char d%d[] = %s;' % (i, lit(t[1])))
+            o.append('constexpr string_term t%d(d%d);' % (i, i))
+        else:
+            o.append('constexpr char d%d[] = %s;' % (i, lit(t[1])))
+            o.append('constexpr regex_term<d%d> t%d("rx%d");' % (i, i, i))
+    rl = ['        n0() >= LF{0u}'] + ['        n0(n0, %s) >= LF{%du}' % (', '.join('t%d' % k for k in rs), i + 1) for i, rs in enumerate(shape_rules)]
+    pdef = 'parser(n0, terms(%s), nterms(n0), rules(\n%s\n    ))' % (', '.join('t%d' % i for i in range(len(terms))), ',\n'.join(rl))
+    o.append('constexpr auto p = %s;' % pdef)
+    o.append('template<typename B> constexpr auto run(const B& b, bool ws, bool nl) { utils::no_stream s; return p.parse(parse_options{}.set_skip_whitespace(ws).set_skip_newline(nl), b, s); }')
+    o.append('template<typename P, typename B> auto runp(const P& q, const B& b, bool ws, bool nl) { utils::no_stream s; return q.parse(parse_options{}.set_skip_whitespace(ws).set_skip_newline(nl), b, s); }')
+    o.append('#ifndef VERIF_RUNTIME_ONLY')
+    for i, c in enumerate(cases):
+        o.append('constexpr auto r%d = run(cstring_buffer(%s), %s, %s);' % (i, lit(c['bytes']), 'true' if c['ws'] else 'false', 'true' if c['nl'] else 'false'))
+        if c['ok']:
+            o.append('static_assert(r%d.has_value(), "CT%d:accept");' % (i, i))
+            o.append('static_assert(!r%d.has_value() || r%d.value() == %du, "CT%d:value");' % (i, i, c['val'], i))
+        else:
+            o.append('static_assert(!r%d.has_value(), "CT%d:reject");' % (i, i))
+    o.append('#endif')
+    o.append('int main() {')
+    o.append('  auto* q = new auto(%s);  // the same parser, constructed at run time' % pdef)
+    o.append('  auto pr = [](int i, const char* how, const auto& r) { printf("%d %s %d %u\\n", i, how, int(r.has_value()), r.has_value() ? r.value() : 0u); };')
+    for i, c in enumerate(cases):
+        L = lit(c['bytes'])
+        n = len(c['bytes'])
+        ws, nl = ('true' if c['ws'] else 'false'), ('true' if c['nl'] else 'false')
+        o.append('  { static const char d[] = %s;' % L)
+        o.append('    pr(%d, "cstring,ctobj", run(cstring_buffer(d), %s, %s)); pr(%d, "cstring,rtobj", runp(*q, cstring_buffer(d), %s, %s));' % (i, ws, nl, i, ws, nl))
+        o.append('    pr(%d, "string,ctobj", run(string_buffer(std::string(d, %d)), %s, %s)); pr(%d, "string,rtobj", runp(*q, string_buffer(std::string(d, %d)), %s, %s));' % (i, n, ws, nl, i, n, ws, nl))
+        o.append('    static const char e[] = %s;' % lit(list(c['bytes']) + [32, 10] + list(c['bytes']) + [32]))
+        o.append('    pr(%d, "view,ctobj", run(string_view_buffer(std::string_view(e, %d)), %s, %s)); pr(%d, "view,rtobj", runp(*q, string_view_buffer(std::string_view(e, %d)), %s, %s)); }' % (i, n, ws, nl, i, n, ws, nl))
+    o.append('  return 0; }')
+    return '\n'.join(o) + '\n'
